@@ -40,13 +40,15 @@ Lemma parse_consensus_state_key_exact p h :
   parse_consensus_state_key p = Some h -> p = consensus_state_key h /\ valid_height h = true.
 Proof.
   unfold parse_consensus_state_key. destruct (strip _ p) as [hb|] eqn:S; [|discriminate].
-  destruct (Nat.eqb (length hb) 16) eqn:L; [|discriminate]. intros [= <-].
+  destruct (Nat.eqb (length hb) 16) eqn:L; [|discriminate].
   apply Nat.eqb_eq in L. apply strip_some in S. destruct (skipn_length_8 hb L) as [L1 L2].
   assert (L3 : length (firstn 8 (skipn 8 hb)) = 8%nat) by (rewrite firstn_all2; [exact L2 | rewrite L2; apply le_n]).
-  split.
-  - rewrite consensus_key_bytes. cbn [rev_number rev_height]. rewrite S. f_equal.
-    rewrite (be8_of_val _ L1), (be8_of_val _ L3).
-    rewrite (firstn_all2 (skipn 8 hb)) by (rewrite L2; apply le_n). symmetry. apply firstn_skipn.
+  assert (Hb : hb = firstn 8 hb ++ firstn 8 (skipn 8 hb)).
+  { rewrite (firstn_all2 (skipn 8 hb)) by (rewrite L2; apply le_n). symmetry. apply firstn_skipn. }
+  revert L1 L3 Hb. generalize (firstn 8 hb) as f1. generalize (firstn 8 (skipn 8 hb)) as f2. intros f2 f1 L1 L3 Hb E.
+  injection E as <-. split.
+  - rewrite consensus_key_bytes. cbn [rev_number rev_height]. rewrite S, Hb.
+    rewrite (be8_of_val _ L1), (be8_of_val _ L3). reflexivity.
   - unfold valid_height. cbn [rev_number rev_height]. apply andb_true_iff. split; apply N.ltb_lt; apply be_val_lt_two64; assumption.
 Qed.
 
@@ -170,7 +172,7 @@ Proof.
   { rewrite tm_processed_time_key_split. apply parse_consensus_state_key_of_metadata. discriminate. }
   assert (I : tm_iteration_key h = tm_KeyIterateConsensusStatePrefix ++ be_bytes 8 (rev_number h) ++ be_bytes 8 (rev_height h)).
   { unfold tm_iteration_key, height_args. rewrite shape_iteration. cbn [render render_item get_n nth_error]. rewrite app_nil_r. reflexivity. }
-  repeat split.
+  refine (conj _ (conj _ (conj _ (conj _ (conj _ _))))).
   - unfold metadata_path. apply orb_true_iff. left. apply andb_true_iff. split.
     + rewrite tm_processed_time_key_split. apply is_prefix_consensus_prefix.
     + destruct (processed_time_key_roundtrip h) as [R _]. rewrite R. reflexivity.
@@ -191,7 +193,8 @@ Theorem evm_metadata_paths sfx :
   bytes_eqb (bsc_PrefixKeyRecentSingers ++ sfx) host_KeyClientState = false /\ bytes_eqb (bsc_PrefixPendingValidators ++ sfx) host_KeyClientState = false /\
   bytes_eqb (eth_KeyIndexEthHeaderPrefix ++ sfx) host_KeyClientState = false /\ bytes_eqb (eth_KeyMainRootPrefix ++ sfx) host_KeyClientState = false.
 Proof.
-  unfold metadata_path. rewrite !is_prefix_app. cbn [orb]. rewrite !orb_true_r. repeat split; reflexivity.
+  unfold metadata_path. rewrite !is_prefix_app. cbn [orb]. rewrite !orb_true_r.
+  refine (conj _ (conj _ (conj _ (conj _ (conj _ (conj _ (conj _ (conj _ (conj _ (conj _ (conj _ _))))))))))); reflexivity.
 Qed.
 
 (** a consensus state key of ANY height and a client state key are read back by the classification *)
@@ -201,7 +204,7 @@ Theorem client_keys_classified name h :
   parse_consensus_state_key (consensus_state_key h) = Some h /\
   parse_client_key (full_client_state_key name) = Some (name, host_KeyClientState).
 Proof.
-  intros Hn Hh. rewrite full_consensus_key_split, full_client_state_key_split. repeat split.
+  intros Hn Hh. rewrite full_consensus_key_split, full_client_state_key_split. refine (conj _ (conj _ _)).
   - apply parse_client_key_prefix. exact Hn.
   - apply parse_consensus_state_key_roundtrip. exact Hh.
   - apply parse_client_key_prefix. exact Hn.
@@ -217,7 +220,7 @@ Theorem packet_keys_classified t a b :
 Proof.
   intros V Va Vb. unfold wf_packet_key.
   rewrite (ack_key_parse_roundtrip t V), (commitment_key_parse_roundtrip t V), (receipt_key_parse_roundtrip t V), !bytes_eqb_refl.
-  repeat split. apply next_seq_key_parse_roundtrip; assumption.
+  refine (conj eq_refl (conj eq_refl (conj eq_refl _))). apply next_seq_key_parse_roundtrip; assumption.
 Qed.
 
 (** [sdk.BigEndianToUint64] of the 8 bytes [SetNextSequenceSend] writes *)
